@@ -212,10 +212,14 @@ impl Property for C20 {
         };
         let share = if tier == Tier::Quick { 12 } else { 8 };
         let eintr_at = if rng.chance(1, share) { Some(rng.range(1, 2) as u32) } else { None };
-        let big_hdr = if rng.chance(1, 2) { 0 } else { rng.range(1, 5) as u8 };
-        let big = if rng.chance(1, 2000) {
-            // (8 bytes per instruction: 64 KiB, 1 MiB and 16 MiB boundaries)
-            let count = *rng.pick(&[8_190u32, 8_192, 131_068, 131_069, 131_070, 131_072, 140_000, 2_097_149, 2_097_150, 2_097_152, 2_200_000]);
+        let big_hdr = rng.below(6) as u8;
+        let big = if rng.chance(1, 150) {
+            // around 64 KiB and 1 MiB (8 bytes per instruction): cheap enough to be common, with every header variant
+            let count = *rng.pick(&[8_190u32, 8_192, 131_068, 131_070, 131_071, 131_072, 131_073, 140_000]);
+            Some((count, *rng.pick(&[0u32, 0x0002_0011, 0x0001_FFFF, 0x0001_0000])))
+        } else if rng.chance(1, 4000) {
+            // beyond 16 MiB
+            let count = *rng.pick(&[2_097_149u32, 2_097_150, 2_097_152, 2_200_000]);
             Some((count, *rng.pick(&[0u32, 0x0002_0011, 0x0001_FFFF, 0x0001_0000])))
         } else {
             None
